@@ -136,12 +136,12 @@ def predict(v0, step):
     return cbs, "error", migrated, False
 
 
-def expected_probe(layer_dir):
+def expected_probe(layer_dir, spelled=None):
     entries, unspec = envmodel.read_layer_dir(layer_dir.encode())
     out = []
     for scope in PROBE_SCOPES:
         for start in PROBE_STARTS:
-            out.append(envmodel.apply(entries, scope, start, layer_dir=layer_dir.encode()))
+            out.append(envmodel.apply(entries, scope, start, layer_dir=layer_dir.encode(), spelled=None if spelled is None else spelled.encode()))
     return out
 
 
@@ -264,7 +264,9 @@ def judge(step, rep, pre, post, names, layers, src, sh, case):
     # ---- returned LayerData equals the disk
     d = rep["data"]
     ldir = os.path.join(layers, nm)
-    if d["name"] != nm or d["path"] != ldir:
+    # (the layers directory as the code under test was given it: possibly relative to ITS working directory)
+    spelled = None if not case.get("_layers_spelled") else os.path.join(case["_layers_spelled"], nm)
+    if d["name"] != nm or d["path"] != (spelled or ldir):
         sh.violation("data:identity", "%s returned name/path %r / %r" % (what, d["name"], d["path"]), case)
         return None
     if d["types"] != want_types:
@@ -273,7 +275,7 @@ def judge(step, rep, pre, post, names, layers, src, sh, case):
     if d["metadata"] is None or tomlw.untagged(d["metadata"]) != {key: want_md_value}:
         sh.violation("data:metadata", "%s returned metadata %r, disk has %r" % (what, d["metadata"], md), case)
         return None
-    if not probe_equal(d["env_probe"], expected_probe(ldir)):
+    if not probe_equal(d["env_probe"], expected_probe(ldir, spelled)):
         sh.violation("data:env", "%s: the returned LayerData.env does not behave like the env on disk (%r)"
                      % (what, sorted(k for k in v1["dir"] if k.split(b"/")[0] in ENVROOTS)), case)
         return None
@@ -306,12 +308,16 @@ def run_history(mon, base, hid, steps, names, sh, snapshots_out=None):
     for d in (layers, os.path.join(root, "app"), os.path.join(root, "bp"), src):
         os.makedirs(d)
     # the layers directory as the platform names it: plainly, through a symbolic link, or with '.' / '..' segments
-    style = sum(map(ord, str(hid))) % 3
+    style = sum(map(ord, str(hid))) % 4
+    spelled = None
     if style == 0:
         os.symlink("layers", os.path.join(root, "layers-link"))
         layers = os.path.join(root, "layers-link")
     elif style == 1:
         layers = os.path.join(root, "app", "..", ".", "layers")
+    elif style == 3:
+        # relative to the working directory of the process that runs the build (which is then <root>/app, as for a real build)
+        spelled = os.path.join("..", "layers")
     for p in ("p1", "p2", "p3"):
         with open(os.path.join(src, p), "wb") as f:
             f.write(b"#!/bin/sh\necho " + p.encode() + b"\n")
@@ -320,9 +326,9 @@ def run_history(mon, base, hid, steps, names, sh, snapshots_out=None):
         f.write(b"#!/bin/sh\necho pB\n")
     os.chmod(os.path.join(src, "p1b"), 0o755)
     os.symlink("p2", os.path.join(src, "p2l"))      # a source that is a symbolic link: what is installed is the program, not the link
-    case = {"steps": jsonable(steps), "names": names, "_layers": layers, "umask": UMASK}
+    case = {"steps": jsonable(steps), "names": names, "_layers": layers, "umask": UMASK, "_layers_spelled": spelled}
     try:
-        mon.call({"op": "init", "layers_dir": layers, "app_dir": os.path.join(root, "app"), "bp_dir": os.path.join(root, "bp")})
+        mon.call({"op": "init", "layers_dir": spelled or layers, "app_dir": os.path.join(root, "app"), "bp_dir": os.path.join(root, "bp"), "chdir": os.path.join(root, "app") if spelled else "/"})
         pre = vp.snapshot(layers)
         for i, step in enumerate(steps):
             case["failing_step"] = i
